@@ -177,6 +177,7 @@ def __calculate_equities_0(
     assert len(board_cards) == board_dealing_count
 
     equities = [0.0] * len(hole_cards)
+    hands_by_type = []
 
     for hand_type in hand_types:
         hands = list(
@@ -185,9 +186,17 @@ def __calculate_equities_0(
                 hole_cards,
             ),
         )
+
+        if max_or_none(hands) is not None:
+            hands_by_type.append(hands)
+
+    if not hands_by_type:
+        hands_by_type.append([None] * len(hole_cards))
+
+    for hands in hands_by_type:
         max_hand = max_or_none(hands)
         statuses = list(map(partial(eq, max_hand), hands))
-        increment = 1 / (len(hand_types) * sum(statuses))
+        increment = 1 / (len(hands_by_type) * sum(statuses))
 
         for i, status in enumerate(statuses):
             if status:
